@@ -133,9 +133,19 @@ def gen_case(seed, k):
             return c
     if r < 0.35:
         td = U.random_union(rng, traits=rng.choice([["Default"], ["Default", "Clone", "Copy"], ["Debug", "Default"]]))
-        text = S.render(td, rng_for(seed, PROP, "spell", k), extras=False)
         fs = td.variants[0].fields
         f = M.union_default_field(td)
+        override = None
+        if rng.random() < 0.4:
+            # the whole value from a type-level expression (also for one-field unions, where the field rule would apply too)
+            g = rng.choice([x for x in fs if x.kind.key != "U:G"] or [None])
+            if g is not None:
+                lit = U.default_literal(g.kind.ty, rng)
+                for x in fs:
+                    x.sem.pop("Default", None)
+                td.tsem["Default"]["expr"] = "%s { %s: %s }" % (td.name, g.name, lit)
+                f, override = g, {"expr": lit}
+        text = S.render(td, rng_for(seed, PROP, "spell", k), extras=False)
         # observe exactly the designated field (reading another one would read uninitialised bytes)
         glue = ("pub fn ufp(x: &%s) -> String { format!(\"{:?}\", unsafe { &x.%s }) }\n" % (td.inst(), f.name))
         new = td.tsem.get("Default", {}).get("new")
@@ -143,7 +153,7 @@ def gen_case(seed, k):
                  % (RT, td.inst(), RT, k)]
         if new:
             drive.append("        %sbegin(); let d = <%s>::new(); %sobs(\"c%d\", \"new\", 0, -1, &ufp(&d));" % (RT, td.inst(), RT, k))
-        c = BH.Case("c%d" % k, td, text, [], glue=glue, drive="\n".join(drive), info={"union": True, "field": f, "new": new})
+        c = BH.Case("c%d" % k, td, text, [], glue=glue, drive="\n".join(drive), info={"union": True, "field": f, "new": new, "override": override})
         from .. import harness as H
         c.module = lambda c=c: H.module(c.cid, c.text + c.glue + "pub fn run() {\n    %sguarded(\"%s\", || {\n%s\n    });\n}\n"
                                         % (RT, c.cid, c.drive))
@@ -181,8 +191,8 @@ def expected_fp(td):
     return "v%d(%s)" % (vi, ",".join(parts))
 
 
-def union_expected(td, f):
-    s = f.sem.get("Default", {})
+def union_expected(td, f, override=None):
+    s = override or f.sem.get("Default", {})
     ty = f.kind.ty
     if ty == "G":
         ty = td.params[0]["arg"]
@@ -229,7 +239,7 @@ def judge(chk, c, obs, dropped):
         want = c.info["want"]
         kind = "literal"
     elif c.info.get("union"):
-        want = union_expected(c.td, c.info["field"])
+        want = union_expected(c.td, c.info["field"], c.info.get("override"))
         kind = "union"
     else:
         want = expected_fp(c.td)
